@@ -13,7 +13,7 @@ use rlib_io::{Reader, Writer};
 use rlib_mint::Modular;
 
 /// moduli inside the property's domain that are not in 2..=64
-const BIG: [u32; 12] = [
+const BIG: [u32; 18] = [
     998244353,  // competition prime
     1000000007, // competition prime
     2147483647, // 2^31 - 1 (prime)
@@ -26,6 +26,12 @@ const BIG: [u32; 12] = [
     46341,      // M^2 just above 2^31 (46341 = 3*15447)
     46340,      // M^2 just below 2^31
     46337,      // prime next to sqrt(2^31)
+    65537,      // Fermat prime: (M-1)^2 = 2^32 exactly (a 32-bit product fast path is wrong for -1 * -1 only)
+    65535,      // (M-1)^2 just below 2^32
+    65538,      // (M-1)^2 just above 2^32
+    1073741825, // 2^30 + 1: the sum of two residues can pass 2^31
+    1073741823, // 2^30 - 1
+    257,        // Fermat prime: (M-1)^2 = 2^16
 ];
 /// moduli outside the domain (`S any`): the model mirrors the wrapping casts / overflow panics
 const OOD: [u32; 4] = [1, 2147483648, 2147483649, 4294967295];
@@ -44,7 +50,7 @@ fn dispatch_modulus(m: u32, op: &str, args: &[&str]) -> Option<String> {
         2 3 4 5 6 7 8 9 10 11 12 13 14 15 16 17 18 19 20 21 22 23 24 25 26 27 28 29 30 31 32 33
         34 35 36 37 38 39 40 41 42 43 44 45 46 47 48 49 50 51 52 53 54 55 56 57 58 59 60 61 62 63 64
         998244353 1000000007 2147483647 2147483629 2147483646 2147483645 65536 15015
-        1073741824 46341 46340 46337
+        1073741824 46341 46340 46337 65537 65535 65538 1073741825 1073741823 257
         1 2147483648 2147483649 4294967295)
 }
 
